@@ -34,6 +34,7 @@ func init() {
 	zzverif.Register("VerifC13Workspace", VerifC13Workspace)
 	zzverif.Register("VerifC13Interleave", VerifC13Interleave)
 	zzverif.Register("VerifC13Empty", VerifC13Empty)
+	zzverif.Register("VerifC13Reopen", VerifC13Reopen)
 	zzverif.Register("VerifC13InterleaveLong", VerifC13InterleaveLong)
 }
 
@@ -48,6 +49,13 @@ func VerifC13Interleave()     { c13Burst(2, 3, 1, false, 2, true) }
 func VerifC13InterleaveLong() { c13Burst(2, 4, 1, false, 2, true) }
 
 // the latest text may be empty (select all, delete)
+// VerifC13Reopen: numbered notifications; the document is opened (and changed), closed and
+// opened again with another text while analyses of the first session may still be pending.
+func VerifC13Reopen() {
+	c13Reopen = true
+	c13Burst(1, 2, 1, false, 2, true)
+}
+
 func VerifC13Empty() { c13Burst(2, 3, 1, false, 4, false) }
 
 type c13Task struct {
@@ -218,22 +226,35 @@ func c13Init(w *c13World, root string, ws bool) {
 }
 
 type c13Note struct {
-	doc  int
-	text string
-	open bool
+	doc   int
+	text  string
+	open  bool
+	close bool
+	ver   int32 // LSP document version (0: the client numbers nothing)
 }
+
+// c13Reopen: the burst numbers its notifications like a client does (didOpen carries version 1,
+// every change the next number) and document 0 is closed and opened again with another text at
+// the end - the numbering starts again at 1, so a version seen before names a different text.
+var c13Reopen bool
 
 func (w *c13World) send(uris []protocol.DocumentURI, n c13Note) {
 	uri, text := uris[n.doc], n.text
+	if n.close {
+		w.notify(uri, func() {
+			_ = w.s.DidClose(w.ctx, &protocol.DidCloseTextDocumentParams{TextDocument: protocol.TextDocumentIdentifier{URI: uri}})
+		})
+		return
+	}
 	if n.open {
 		w.notify(uri, func() {
-			_ = w.s.DidOpen(w.ctx, &protocol.DidOpenTextDocumentParams{TextDocument: protocol.TextDocumentItem{URI: uri, Text: text}})
+			_ = w.s.DidOpen(w.ctx, &protocol.DidOpenTextDocumentParams{TextDocument: protocol.TextDocumentItem{URI: uri, Text: text, Version: n.ver}})
 		})
 		return
 	}
 	w.notify(uri, func() {
 		_ = w.s.DidChange(w.ctx, &protocol.DidChangeTextDocumentParams{
-			TextDocument:   protocol.VersionedTextDocumentIdentifier{TextDocumentIdentifier: protocol.TextDocumentIdentifier{URI: uri}},
+			TextDocument:   protocol.VersionedTextDocumentIdentifier{TextDocumentIdentifier: protocol.TextDocumentIdentifier{URI: uri}, Version: n.ver},
 			ContentChanges: []protocol.TextDocumentContentChangeEvent{{Text: text}},
 		})
 	})
@@ -260,8 +281,15 @@ func c13Burst(minN, maxN, ndocs int, ws bool, shapes int, interleave bool) {
 	var notes []c13Note
 	for i := 0; i < n; i++ {
 		for d := 0; d < ndocs; d++ {
-			notes = append(notes, c13Note{d, c13Text("v"+zzverif.Itoa(d)+"."+zzverif.Itoa(i), shapes), i == 0})
+			nt := c13Note{doc: d, text: c13Text("v"+zzverif.Itoa(d)+"."+zzverif.Itoa(i), shapes), open: i == 0}
+			if c13Reopen {
+				nt.ver = int32(i + 1)
+			}
+			notes = append(notes, nt)
 		}
+	}
+	if c13Reopen {
+		notes = append(notes, c13Note{doc: 0, close: true}, c13Note{doc: 0, text: c13Text("v0.re", shapes), open: true, ver: 1})
 	}
 	if c13RealMode() {
 		c13Real(w, root, ws, uris, notes)
@@ -384,12 +412,17 @@ func c13Real(w *c13World, root string, ws bool, uris []protocol.DocumentURI, not
 	w.s.settingsMu.Lock()
 	for _, n := range notes {
 		uri, text := uris[n.doc], n.text
+		if n.close {
+			_ = w.s.DidClose(w.ctx, &protocol.DidCloseTextDocumentParams{TextDocument: protocol.TextDocumentIdentifier{URI: uri}})
+			time.Sleep(2 * time.Millisecond)
+			continue
+		}
 		latest[n.doc] = text
 		if n.open {
-			_ = w.s.DidOpen(w.ctx, &protocol.DidOpenTextDocumentParams{TextDocument: protocol.TextDocumentItem{URI: uri, Text: text}})
+			_ = w.s.DidOpen(w.ctx, &protocol.DidOpenTextDocumentParams{TextDocument: protocol.TextDocumentItem{URI: uri, Text: text, Version: n.ver}})
 		} else {
 			_ = w.s.DidChange(w.ctx, &protocol.DidChangeTextDocumentParams{
-				TextDocument:   protocol.VersionedTextDocumentIdentifier{TextDocumentIdentifier: protocol.TextDocumentIdentifier{URI: uri}},
+				TextDocument:   protocol.VersionedTextDocumentIdentifier{TextDocumentIdentifier: protocol.TextDocumentIdentifier{URI: uri}, Version: n.ver},
 				ContentChanges: []protocol.TextDocumentContentChangeEvent{{Text: text}},
 			})
 		}
